@@ -15,6 +15,9 @@ Fixpoint enc (ww : Z) (f : fmt) (last : option Z) (data : list Z) : list Z * lis
       else (ch_dot :: fst cl, snd cl)
   end.
 
+Lemma same_changed last v : changed last v = true -> same last v = false.
+Proof. destruct last as [l|]; cbn; [|reflexivity]. rewrite Z.eqb_sym. now destruct (v =? l). Qed.
+
 Lemma row_fold ww f data : forall wd dd last,
   fst (fold_left (row_step ww f) data (wd, dd, last)) = (wd ++ fst (enc ww f last data), dd ++ snd (enc ww f last data)).
 Proof.
@@ -43,15 +46,15 @@ Proof.
   induction 1 as [|v r Hv Hr IH]; intros last; cbn [enc].
   - reflexivity.
   - unfold sample_ok in Hv. destruct (changed last v) eqn:Ech.
-    + destruct (ww =? 1) eqn:Ew.
+    + apply same_changed in Ech. destruct (ww =? 1) eqn:Ew.
       * rewrite str_dec_bit by exact Hv. cbn [fst snd app].
         specialize (IH (Some v)).
         assert (v = 0 \/ v = 1) as [-> | ->] by lia; cbn [decode_body];
-          (replace (48 + 0) with 48 by lia); (replace (48 + 1) with 49 by lia); cbn -[decode_body enc];
-          rewrite IH; reflexivity.
+          (replace (48 + 0) with 48 by lia); (replace (48 + 1) with 49 by lia); cbn -[decode_body enc same];
+          rewrite Ech, IH; reflexivity.
       * destruct Hv as [-> Hv]. change (str_dec 2) with [50]. cbn [fst snd app apply_fmt].
-        cbn [decode_body]. cbn -[decode_body enc parse_hex str_HEX].
-        rewrite hex_roundtrip by exact Hv. specialize (IH (Some v)). rewrite IH. reflexivity.
+        cbn [decode_body]. cbn -[decode_body enc parse_hex str_HEX same].
+        rewrite hex_roundtrip by exact Hv. specialize (IH (Some v)). rewrite Ech, IH. reflexivity.
     + destruct last as [l|]; [|discriminate]. cbn [changed] in Ech.
       assert (v = l) as -> by lia. cbn [fst snd app]. unfold ch_dot.
       cbn [decode_body]. cbn -[decode_body enc]. rewrite IH. reflexivity.
